@@ -97,6 +97,24 @@ def headroom_trace(draw):
                 "pers": pers_ or pers, "trade": "new"}
 
     tick_ = {"_": "book", "dt": 1000, "rc": []}
+    if side == "LAY" and not odds_on_sp and draw(st.integers(0, 5)) == 0:
+        # directed: the first order is a fill-or-kill LAY priced through a thin ladder - sweeping its whole size would
+        # take the volume-weighted price through the limit, so it may only be filled within its limit (or killed):
+        # the liability the control admitted, (price - 1) x size, bounds what can be lost
+        t_ = max(10, min(len(prices) - 12, mid))
+        L_ = prices[t_]
+        sz = max(0.06, round(lim * 0.9 / (L_ - 1), 2))
+        third = max(0.01, round(sz / draw(st.sampled_from([3, 10])), 2))
+        far = min(len(prices) - 2, t_ + draw(st.sampled_from([9, 25])))
+        trace = [{"cfg": cfg_},
+                 {"_": "book", "dt": 1000, "rc": [{"r": r, "atb": [[t_ - 8, 50.0]], "atl": [[t_ - 2, third], [far, round(sz + 5, 2)]]}]},
+                 {"_": "req", "op": "place", "si": 0, "r": r, "side": "LAY", "type": "LIMIT", "tick": t_, "size": sz, "pers": "LAPSE", "trade": "new",
+                  "tif": "FILL_OR_KILL", "min_fill": draw(st.sampled_from([None, round(sz / 2, 2), 0.01]))},
+                 tick_, tick_, {"_": "suspend", "dt": 1000, "bump": True}]
+        results = ["LOSER"] * nr
+        results[r] = "WINNER"
+        trace.append({"_": "close", "dt": 1000, "results": results})
+        return trace
     first = place(draw(st.sampled_from([0.9, 0.95, 0.6])))
     sp_first = odds_on_sp or (spec["bsp_market"] and draw(st.integers(0, 3)) == 0)
     if sp_first:
